@@ -73,7 +73,9 @@ def methods_of(ctx, clsqual):
 
 def instance(ctx, clsqual, fields, fn, isa=None):
     c = ctx.prog.cls(clsqual)
-    return orders.Obj(dict(fields), methods_of(ctx, clsqual), fn, isa=isa or {c.name})
+    o = orders.Obj(dict(fields), methods_of(ctx, clsqual), fn, isa=isa or {c.name})
+    o.clsname = c.name
+    return o
 
 
 def guard(f, what):
